@@ -69,6 +69,14 @@ CHECKS = {
    note="U+0000 is outside (NUL-terminated texts). The byte-level ddpstring{str,cap} representation is observed through behaviour and ASan only.",
    technique="TLA+ executable semantics + Utf8 specification, TLC trace validation of compiled programs and of direct runtime calls",
    ref="§4 C12"),
+ "C19": dict(
+   text="Literals.tla states what a written literal denotes (integers up to 2^63-1 else rejected; text and character literals with the escape set a b n r t \\ and the quote, "
+        "unknown escapes and malformed bodies rejected; decimal-comma literals in the exactly representable fragment). Every generated literal is parsed by the real frontend "
+        "(accepted/rejected) and, if accepted, printed by a compiled program; TLC validates each (source, verdict, output) record against the specification.",
+   note="Decimal literals that are not exactly representable are not compared (correct rounding of the 17th digit is not decided here). Text bodies are exhaustive up to 2 symbols, "
+        "sampled at 3 (quick) and exhaustive to 3, sampled at 4 (thorough).",
+   technique="TLA+ literal denotation + TLC trace validation of frontend verdicts and compiled output",
+   ref="§4 C19"),
 }
 PENDING = {}
 
